@@ -801,11 +801,16 @@ func (g *G) stmts(depth, n int, top bool) []*Node {
 		s := g.stmt(depth, top)
 		out = append(out, s)
 		// inside blocks too: close tag + inline HTML + open tag after a statement that ends in '}' (a definite StmtNop)
-		if !top && !g.O.NoHTML && !g.O.Formatter && g.inHeredoc == 0 && g.R.Chance(1, 14) && endsInBrace(s) {
+		if !top && !g.O.NoHTML && !g.O.Formatter && g.inHeredoc == 0 && g.R.Chance(1, 14) {
 			html := g.R.Pick("<i>y</i>", "nested text", "c\nd\n", "<hr/>\r\n", "$z")
-			nop := &Node{Kind: "StmtNop", Parts: []interface{}{t("?>")}}
 			h := &Node{Kind: "StmtInlineHtml", Val: html, HasVal: true, Parts: []interface{}{tn(html), tn(g.R.Pick("<?php", "<?PHP")), tg("", GapNeedWS)}}
-			out = append(out, nop, h)
+			if endsInBrace(s) {
+				nop := &Node{Kind: "StmtNop", Parts: []interface{}{t("?>")}}
+				out = append(out, nop, h)
+			} else if closeTagAfterSemi(s) {
+				// "; ?>" is ONE token (the statement's semicolon): no empty statement
+				out = append(out, h)
+			}
 		}
 	}
 	return out
@@ -846,12 +851,16 @@ func (g *G) Program() *Node {
 		ss = append(ss, s)
 		ps = append(ps, s)
 		// close tag + inline HTML + open tag after a statement that ends in '}' or ':' (a definite StmtNop)
-		if !g.O.NoHTML && g.R.Chance(1, 10) && endsInBrace(s) {
+		if !g.O.NoHTML && g.R.Chance(1, 10) && (endsInBrace(s) || closeTagAfterSemi(s)) {
 			html := g.R.Pick("<b>x</b>", "text", "a\nb\n", "<br/>\r\n", "$x {$y}", "'\"`")
-			nop := &Node{Kind: "StmtNop", Parts: []interface{}{t("?>")}}
 			h := &Node{Kind: "StmtInlineHtml", Val: html, HasVal: true, Parts: []interface{}{tn(html)}}
-			ss = append(ss, nop, h)
-			ps = append(ps, nop, h)
+			if endsInBrace(s) {
+				nop := &Node{Kind: "StmtNop", Parts: []interface{}{t("?>")}}
+				ss = append(ss, nop)
+				ps = append(ps, nop)
+			}
+			ss = append(ss, h)
+			ps = append(ps, h)
 			if g.R.Chance(1, 3) {
 				// <?= expr ?> island
 				e := g.exprTop(2)
@@ -872,6 +881,36 @@ func (g *G) Program() *Node {
 	root.Kids = []Kid{list("Stmts", ss)}
 	root.Parts = ps
 	return root
+}
+
+// closeTagAfterSemi turns the statement's final ';' into the token "; ?>" (semicolon, optional whitespace
+// incl. line terminators, close tag — one token for the scanner, and no empty statement in the tree).
+func closeTagAfterSemi(n *Node) bool {
+	for i := len(n.Parts) - 1; i >= 0; i-- {
+		switch v := n.Parts[i].(type) {
+		case Tok:
+			if v.S == "" {
+				if v.Gap == GapNL {
+					return false // a classic heredoc terminator needs its line terminator
+				}
+				continue
+			}
+			if v.S == ";" && !v.Str {
+				v.S = ";" + OptWSNL + "?>"
+				n.Parts[i] = v
+				return true
+			}
+			return false
+		case *Node:
+			if v == nil {
+				continue
+			}
+			return closeTagAfterSemi(v)
+		default:
+			return false
+		}
+	}
+	return false
 }
 
 func endsInBrace(n *Node) bool {
